@@ -81,6 +81,7 @@ type ListSys[T comparable] struct {
 	N      int
 	Cmps   map[string]func(a, b T) int // nat, rev, coarse
 	NoCtor bool                        // do not offer the variadic-constructor operations
+	Label  string
 	// JSONTexts: inputs offered as FromJSON operations (null entries over whatever the backing array held)
 	JSONTexts []string
 	// Deep mode (data independence): every inserted value is fresh (Gen(counter)) and of a type
@@ -89,7 +90,7 @@ type ListSys[T comparable] struct {
 	Gen func(i int) T
 }
 
-func (s *ListSys[T]) Name() string    { return s.Kind }
+func (s *ListSys[T]) Name() string    { return s.Kind + s.Label }
 func (s *ListSys[T]) Props() []string { return []string{"C03", "C15", "C16"} }
 func (s *ListSys[T]) New() Inst       { return s.newBox() }
 func (s *ListSys[T]) newAPI(vals ...T) *listAPI[T] {
@@ -518,8 +519,51 @@ func (b *listBox[T]) CheckState() *Viol {
 			}
 		}
 	}
+	// argument lists longer than a machine word has bits (65, 130): the late arguments are a value that
+	// occurs more than once in the list (if there is one) and an absent value, in both orders
+	if n > 0 {
+		absent := true
+		mult := map[T]int{}
+		for _, x := range b.ref {
+			mult[x]++
+			if x == b.sys.Absent {
+				absent = false
+			}
+		}
+		cands := []T{b.ref[n-1]}
+		for _, x := range b.ref {
+			if mult[x] >= 2 && len(cands) < 4 {
+				mult[x] = 0
+				cands = append(cands, x)
+			}
+		}
+		for _, k := range []int{65, 130} {
+			for _, d := range cands {
+				rep := make([]T, k)
+				for i := range rep {
+					rep[i] = b.ref[0]
+				}
+				rep[k-1] = d
+				if !b.a.contains(argSlice(rep)...) {
+					return viol(tag("C03"), "mismatch", "Contains(%d arguments: %v repeated, then %v) = false although every argument is in %v", k, b.ref[0], d, clipSlice(b.ref))
+				}
+				if absent {
+					rep[k-2], rep[k-1] = d, b.sys.Absent
+					if b.a.contains(argSlice(rep)...) {
+						return viol(tag("C03"), "mismatch", "Contains(%d arguments: %v repeated, then %v, %v) = true although %v is absent from %v", k, b.ref[0], d, b.sys.Absent, b.sys.Absent, clipSlice(b.ref))
+					}
+					rep[0], rep[k-2], rep[k-1] = b.sys.Absent, b.ref[0], d
+					if b.a.contains(argSlice(rep)...) {
+						return viol(tag("C03"), "mismatch", "Contains(%d arguments: %v, %v repeated, then %v) = true although %v is absent from %v", k, b.sys.Absent, b.ref[0], d, b.sys.Absent, clipSlice(b.ref))
+					}
+				}
+			}
+		}
+	}
 	return pureAll(CanonOpts{}, b.a.obj, b.Readers(), tag("C03"))
 }
+
+func clipSlice[T any](xs []T) string { return clip(fmt.Sprint(xs), 200) }
 
 // ---- Box -----------------------------------------------------------------------
 
